@@ -67,10 +67,15 @@ def rnd_desc(rng: random.Random, i: int) -> dict[str, Any]:
             'settings': {'queueing__idle_timeout': 1.0, 'persistence__consistency_timeout': 0.5, 'execution__default_backoff': 1.2}, 'combo': combo}
 
 
+def _sync(desc: dict[str, Any], seed: int, i: int) -> dict[str, Any]:
+    from kv.world import syncify
+    return syncify(desc, random.Random(f'C10-sync-{seed}-{i}'))       # a share of the scenarios runs (some of) its handlers as threads
+
+
 def gen_cases(tier: str, seed: int):
     rng = random.Random(f'C10-{seed}')
     n = 480 if tier == 'quick' else 16000
-    return [{'name': f'rnd{i}', 'desc': rnd_desc(rng, i)} for i in range(n)]
+    return [{'name': f'rnd{i}', 'desc': _sync(rnd_desc(rng, i), seed, i)} for i in range(n)]
 
 
 def _patch_callable_delay(desc: dict[str, Any]) -> None:
